@@ -112,6 +112,18 @@ def one_program(ctx, prog, script, rng):
             ctx.violation('graph-carries-state-across-calls', f'after the first returned graph was modified by its caller, symbols_to_graph on the same symbols returns '
                           f'{"the same object" if H is G else "a different graph"}: nodes {sorted(map(repr, H.nodes))[:8]}', case)
             return
+    # ---- the symbols may arrive in any iterable: a tuple, an iterator, a generator that filters lazily -----------------------
+    for how, arg in (('tuple', tuple(symbols)), ('iterator', iter(list(symbols))), ('generator', (s_ for s_ in symbols))):
+        try:
+            H = tools.symbols_to_graph(arg)
+        except Exception as e:
+            ctx.violation('graph-raises', f'symbols_to_graph on a {how} of the same symbols raised {type(e).__name__}: {e}', case)
+            return
+        ctx.count('iterable_argument_kinds_compared')
+        if {repr(n): dict(H.nodes[n]) for n in H.nodes} != all_nodes or {(repr(a), repr(b)) for a, b in H.edges} != all_edges:
+            ctx.violation('graph-depends-on-argument-type', f'symbols_to_graph on a {how} of the same symbols gives {len(H.nodes)} nodes / {len(H.edges)} edges; '
+                          f'on the list {len(all_nodes)} / {len(all_edges)}', case)
+            return
     # ---- dynamic confirmation --------------------------------------------------------------------
     if 'named' in ex.features:
         return
